@@ -58,7 +58,10 @@ func (p *watPrinter) printImport_global(importSpec *ast.ImportSpec) {
 }
 
 func (p *watPrinter) printImport_func(importSpec *ast.ImportSpec) {
-	fmt.Fprintf(p.w, " (func %s", watPrinter_identOrIndex(importSpec.FuncName))
+	fmt.Fprint(p.w, " (func")
+	if importSpec.FuncName != "" {
+		fmt.Fprintf(p.w, " %s", watPrinter_identOrIndex(importSpec.FuncName))
+	}
 
 	fnType := importSpec.FuncType
 	if len(fnType.Params) > 0 {
